@@ -6,7 +6,7 @@ use crate::execution::pipeline::{ChunkSizeHint, PushOperator, Sink};
 #[cfg(feature = "spill")]
 use crate::execution::spill::{PartitionedState, SpillManager};
 use crate::execution::vector::ValueVector;
-use grafeo_common::types::Value;
+use grafeo_common::types::{HashableValue, Value};
 use std::collections::HashMap;
 #[cfg(feature = "spill")]
 use std::io::{Read, Write};
@@ -245,39 +245,30 @@ fn compare_for_max(current: &Option<Value>, new: &Value) -> bool {
     }
 }
 
-/// Hash key for grouping.
+/// Key for grouping: the values of the group-by columns themselves.
+///
+/// `HashableValue` hashes and compares values by identity (floats by bit pattern, no
+/// numeric coercion), so two rows fall into one group exactly when their group-by
+/// columns hold the same values: the same groups the spilling operator builds from
+/// the serialized key.
 #[derive(Debug, Clone, PartialEq, Eq, Hash)]
-struct GroupKey(Vec<u64>);
+struct GroupKey(Vec<HashableValue>);
 
 impl GroupKey {
     fn from_row(chunk: &DataChunk, row: usize, group_by: &[usize]) -> Self {
-        let hashes: Vec<u64> = group_by
+        let values: Vec<HashableValue> = group_by
             .iter()
             .map(|&col| {
-                chunk
-                    .column(col)
-                    .and_then(|c| c.get_value(row))
-                    .map_or(0, |v| hash_value(&v))
+                HashableValue::new(
+                    chunk
+                        .column(col)
+                        .and_then(|c| c.get_value(row))
+                        .unwrap_or(Value::Null),
+                )
             })
             .collect();
-        Self(hashes)
+        Self(values)
     }
-}
-
-fn hash_value(value: &Value) -> u64 {
-    use std::collections::hash_map::DefaultHasher;
-    use std::hash::{Hash, Hasher};
-
-    let mut hasher = DefaultHasher::new();
-    match value {
-        Value::Null => 0u8.hash(&mut hasher),
-        Value::Bool(b) => b.hash(&mut hasher),
-        Value::Int64(i) => i.hash(&mut hasher),
-        Value::Float64(f) => f.to_bits().hash(&mut hasher),
-        Value::String(s) => s.hash(&mut hasher),
-        _ => 0u8.hash(&mut hasher),
-    }
-    hasher.finish()
 }
 
 /// Group state with key values and accumulators.
@@ -1047,5 +1038,25 @@ mod tests {
                 assert_eq!(count, 1);
             }
         }
+    }
+
+    #[test]
+    fn test_group_by_keeps_values_of_different_types_apart() {
+        let mut agg = AggregatePushOperator::new(vec![0], vec![AggregateExpr::count_star()]);
+        let mut sink = CollectorSink::new();
+
+        // NULL / FALSE and 0 / 0.0 are four different group keys
+        let keys = [
+            Value::Null,
+            Value::Bool(false),
+            Value::Int64(0),
+            Value::Float64(0.0),
+            Value::Null,
+        ];
+        let chunk = DataChunk::new(vec![ValueVector::from_values(&keys)]);
+        agg.push(chunk, &mut sink).unwrap();
+        agg.finalize(&mut sink).unwrap();
+
+        assert_eq!(sink.row_count(), 4);
     }
 }
